@@ -4,7 +4,8 @@ import os
 
 
 def write(pid, tier, seed, level, coverage, assumptions, wall_s, violations):
-    os.makedirs("evidence", exist_ok=True)
+    evdir = os.environ.get("MC_EVIDENCE_DIR", "evidence")
+    os.makedirs(evdir, exist_ok=True)
     doc = {
         "property_id": pid,
         "tier": tier,
@@ -15,7 +16,7 @@ def write(pid, tier, seed, level, coverage, assumptions, wall_s, violations):
         "wall_s": round(float(wall_s), 3),
         "violations": int(violations),
     }
-    tmp = os.path.join("evidence", pid + ".json.tmp")
+    tmp = os.path.join(evdir, pid + ".json.tmp")
     with open(tmp, "w") as f:
         json.dump(doc, f, indent=1, sort_keys=True, default=repr)
-    os.replace(tmp, os.path.join("evidence", pid + ".json"))
+    os.replace(tmp, os.path.join(evdir, pid + ".json"))
